@@ -19,7 +19,7 @@ DEVIATIONS = [
     ("ServerReg", "MC_ServerReg_live.cfg", ["FixD15"]),
     ("KeepAlive", "MC_KeepAlive.cfg", ["FixD11", "FixD17"]),
     ("Requestor", "MC_Requestor.cfg", ["RouteByCid"]),
-    ("ServerLife", "MC_ServerLife.cfg", ["LockOrderAsCode", "CloseChannels"]),
+    ("ServerLife", "MC_ServerLife.cfg", ["LockOrderAsCode", "CloseChannels", "CloseForAllHandles"]),
     ("RequestorLife", "MC_RequestorLife.cfg", ["CidNeverReused", "ReconnectKeepsPending"]),
     ("ReplierLife", "MC_ReplierLife.cfg", ["BindErrorRecoverable"]),
 ]
